@@ -446,3 +446,168 @@ theorem psd_of_scaled {d0 d : Data K n p m} {pre : Precond K n p m} (hs : Applie
   exact mul_nonneg (le_of_lt hc) (hP _)
 end psd
 end Piqp.C02
+
+namespace Piqp.C02
+section first
+open Piqp.C14
+variable {K : Type} [Field K] [LinearOrder K] [IsStrictOrderedRing K] [Inhabited K]
+variable {n p m : Nat}
+
+theorem init_fields (be : Backend) (d : Data K n p m) (rho delta : K) (o1 o2 o3 o4 : Vec K n) :
+    let k := KKT.init be d rho delta o1 o2 o3 o4
+    k.rho = rho ∧ k.delta = delta ∧ k.s = Vec.const m 1 ∧ k.zinv = Vec.const m 1 ∧
+    k.s_lb = d.lb.headUpd o1 (fun _ => 1) ∧ k.s_ub = d.ub.headUpd o2 (fun _ => 1) ∧
+    k.zinv_lb = d.lb.headUpd o3 (fun _ => 1) ∧ k.zinv_ub = d.ub.headUpd o4 (fun _ => 1) := by
+  unfold KKT.init
+  cases be <;> exact ⟨rfl, rfl, rfl, rfl, rfl, rfl, rfl, rfl⟩
+
+/-- the factorisation of the matrix `setup()` built succeeds (convex data, positive `ρ, δ`): no retry at the first solve -/
+theorem init_factor_succeeds (be : Backend) (hsp : be.isDense = false) (st : KKTSettings K) (d : Data K n p m) (rho delta : K)
+    (o1 o2 o3 o4 : Vec K n) (perm : Vector (Fin (n + p + m)) (n + p + m)) (hperm : IsPerm perm)
+    (hP : ∀ x : Vec K n, 0 ≤ quad d.Psym x) (hρ : 0 < rho) (hδ : 0 < delta) (b : Bool) :
+    (KKT.regFactor be st d (KKT.init be d rho delta o1 o2 o3 o4) b (innerLDLT be perm)).factOk = true := by
+  have hcoh := C13.init_coherent be d rho delta o1 o2 o3 o4
+  obtain ⟨f1, f2, f3, f4, f5, f6, f7, f8⟩ := init_fields be d rho delta o1 o2 o3 o4
+  generalize KKT.init be d rho delta o1 o2 o3 o4 = k at hcoh f1 f2 f3 f4 f5 f6 f7 f8 ⊢
+  have hw : ∀ t : Fin m, 0 < k.s[t] * k.zinv[t] + k.delta := by
+    intro t; rw [f2, f3, f4]; simp only [C13.vecConst_get]; linarith
+  have hl : ∀ a : Fin n, d.lb.act a → 0 < k.zinv_lb[a] * k.s_lb[a] + k.delta := by
+    intro a ha; rw [f2, f5, f7, C13.headUpd_get, C13.headUpd_get]; simp only [ha, if_true]; linarith
+  have hu : ∀ a : Fin n, d.ub.act a → 0 < k.zinv_ub[a] * k.s_ub[a] + k.delta := by
+    intro a ha; rw [f2, f6, f8, C13.headUpd_get, C13.headUpd_get]; simp only [ha, if_true]; linarith
+  cases b
+  · exact sparse_factorisation_never_fails be st d k perm hperm hcoh hP (by rw [f1]; exact hρ) (by rw [f2]; exact hδ) hw hl hu
+  · exact sparse_factorisation_never_fails_refine be hsp st d k perm hperm hcoh hP (by rw [f1]; exact hρ) (by rw [f2]; exact hδ) hw hl hu
+
+/-- **the first `solve()` after `setup()`** (`kktInitState = true`, the KKT state is the one `KKT::init` built): on convex
+    data it never answers NUMERICS either — the matrix assembled by `setup` factorises without retries and so does every
+    matrix of the main loop (sparse back ends, every permutation, exact arithmetic) -/
+theorem first_solve_never_numerics (cs : Consts K) (sqrtF : K → K) (s : Solver K n p m) (perm : Vector (Fin (n + p + m)) (n + p + m))
+    (hperm : IsPerm perm) (hsp : s.be.isDense = false) (hv : s.st.verify = true) (hτ1 : s.st.tau < 1)
+    (hft : 0 < s.st.regFinetuneLowerLimit) (heps : 0 ≤ cs.machEps) (h15 : 1 ≤ cs.c1_5) (h05 : 0 < cs.c0_5)
+    (hP : ∀ x : Vec K n, 0 ≤ quad s.data.Psym x) (hki : s.kktInitState = true)
+    (rho delta : K) (o1 o2 o3 o4 : Vec K n) (hk : s.kkt = KKT.init s.be s.data rho delta o1 o2 o3 o4) (hρ : 0 < rho) (hδ : 0 < delta)
+    (hnl : s.data.lb.cnt ≤ n) (hnu : s.data.ub.cnt ≤ n)
+    (hguard : ∀ (w0 : Work K n p m) (kkt1 : KKT K n p m) (b : Bool), m + s.data.lb.cnt + s.data.ub.cnt ≠ 0 →
+      0 < (mehrotraShift cs s.data (ipBeforeShift cs s (Solver.env cs sqrtF s perm) w0 kkt1 b)).2.2) :
+    (solveTyped cs sqrtF s perm).2 ≠ Status.numerics := by
+  obtain ⟨hρ0, hδ0, hrl, hτ0⟩ := verify_facts s.st hv
+  have hin : (Solver.env cs sqrtF s perm).inner = innerLDLT (Solver.env cs sqrtF s perm).be perm := by
+    simp only [Solver.env, execInner, hsp, Bool.false_eq_true, if_false]
+  have hP' : ∀ x : Vec K n, 0 ≤ quad (Solver.env cs sqrtF s perm).data.Psym x := hP
+  have hk0 : (solveStart cs sqrtF s perm).2.1 = s.kkt := by
+    simp only [solveStart, hki, Bool.not_true, Bool.false_eq_true, if_false]
+  have hcone : C08.InCone s.data (solveStart cs sqrtF s perm).1 := by
+    simp only [solveStart]
+    refine ⟨fun i => ?_, fun i => ?_, fun i hi => ?_, fun i hi => ?_, fun i hi => ?_, fun i hi => ?_⟩
+    · simp [Vec.const]
+    · simp [Vec.const]
+    · rw [C08.headUpd_get']; simp [hi]
+    · rw [C08.headUpd_get']; simp [hi]
+    · rw [C08.headUpd_get']; simp [hi]
+    · rw [C08.headUpd_get']; simp [hi]
+  have hfa : ((realOps (Solver.env cs sqrtF s perm)).factor s.refineOn ((solveStart cs sqrtF s perm).1, (solveStart cs sqrtF s perm).2.1)).2 = true := by
+    simp only [realOps]
+    rw [hk0, hk, hin]
+    exact init_factor_succeeds s.be hsp s.st.kkt s.data rho delta o1 o2 o3 o4 perm hperm hP hρ hδ s.refineOn
+  have hcache : C13.CachesOk s.be s.data
+      ((realOps (Solver.env cs sqrtF s perm)).factor s.refineOn ((solveStart cs sqrtF s perm).1, (solveStart cs sqrtF s perm).2.1)).1.2 := by
+    simp only [realOps]
+    rw [hk0, hk]
+    exact C04.regFactor_cachesOk _ _ _ _ _ _ (C13.init_cachesOk _ _ _ _ _ _ _ _)
+  unfold solveTyped
+  simp only [hv, Bool.not_true, Bool.false_eq_true, if_false]
+  rw [initLoopG.eq_def]
+  simp only [hfa, if_true, Bool.not_true, Bool.false_eq_true, if_false]
+  apply convex_never_numerics (Solver.env cs sqrtF s perm) perm hperm hsp hin hP' hτ0 hτ1 heps hft
+  refine ⟨?_, ?_, ?_, ?_, ?_⟩
+  · exact C08.initialPoint_in_cone cs s (Solver.env cs sqrtF s perm) (solveStart cs sqrtF s perm).1
+      ((realOps (Solver.env cs sqrtF s perm)).factor s.refineOn ((solveStart cs sqrtF s perm).1, (solveStart cs sqrtF s perm).2.1)).1.2
+      (solveStart cs sqrtF s perm).2.2 s.refineOn hnl hnu h15 h05 (hguard _ _ _)
+  · rw [C04.initialPoint_kkt]; exact hcache
+  · unfold initialPoint; simp only; split <;> exact hρ0
+  · unfold initialPoint; simp only; split <;> exact hδ0
+  · unfold initialPoint; simp only; split <;> exact hrl
+
+/-- **end to end: `setup()` on a convex problem, then `solve()`**: with a Ruiz preconditioner, valid settings, `τ < 1`, a
+    positive fine-tuning floor and a well-defined initial point, the answer is never NUMERICS (sparse back ends, every
+    permutation). The hypothesis on `P` is on the *user's* matrix (its stored upper triangle symmetrised). -/
+theorem setup_solve_never_numerics (cs : Consts K) (sqrtF : K → K) (poison : K) (hg : C15.PosConsts cs sqrtF) (hn : 0 < n)
+    (be : Backend) (hsp : be.isDense = false) (pk : PrecKind) (hpk : pk ≠ .identity) (st : Settings K) (prevInfo : Info K)
+    (P : Mat K n n) (c : Vec K n) (AT : Mat K n p) (b : Vec K p) (GT : Mat K n m) (h : Option (Vec K m)) (xlb xub : Option (Vec K n))
+    (perm : Vector (Fin (n + p + m)) (n + p + m)) (hperm : IsPerm perm)
+    (hv : st.verify = true) (hτ1 : st.tau < 1) (hft : 0 < st.regFinetuneLowerLimit) (heps : 0 ≤ cs.machEps) (h15 : 1 ≤ cs.c1_5) (h05 : 0 < cs.c0_5)
+    (hP : ∀ x : Vec K n, 0 ≤ quad (setupRaw cs poison hn P c AT b GT h xlb xub).Psym x)
+    (hguard : ∀ (w0 : Work K n p m) (kkt1 : KKT K n p m) (bb : Bool),
+      m + (setupTyped cs sqrtF poison hn be pk st prevInfo P c AT b GT h xlb xub).data.lb.cnt +
+          (setupTyped cs sqrtF poison hn be pk st prevInfo P c AT b GT h xlb xub).data.ub.cnt ≠ 0 →
+      0 < (mehrotraShift cs (setupTyped cs sqrtF poison hn be pk st prevInfo P c AT b GT h xlb xub).data
+        (ipBeforeShift cs (setupTyped cs sqrtF poison hn be pk st prevInfo P c AT b GT h xlb xub)
+          (Solver.env cs sqrtF (setupTyped cs sqrtF poison hn be pk st prevInfo P c AT b GT h xlb xub) perm) w0 kkt1 bb)).2.2) :
+    (solveTyped cs sqrtF (setupTyped cs sqrtF poison hn be pk st prevInfo P c AT b GT h xlb xub) perm).2 ≠ Status.numerics := by
+  have hgood := C04.setup_good cs sqrtF poison hg.good hn be pk hpk st prevInfo P c AT b GT h xlb xub
+  have hshape := C04.setup_shape cs sqrtF poison hg hn be pk hpk st prevInfo P c AT b GT h xlb xub
+  obtain ⟨hρ0, hδ0, _, _⟩ := verify_facts st hv
+  exact first_solve_never_numerics cs sqrtF _ perm hperm hsp hv hτ1 hft heps h15 h05
+    (psd_of_scaled hgood.scaled.toApplied hshape.pos.c hP) rfl st.rhoInit st.deltaInit _ _ _ _ rfl hρ0 hδ0
+    hshape.lb.1 hshape.ub.1 hguard
+end first
+end Piqp.C02
+
+namespace Piqp.C02
+section dense
+open Piqp.C14
+variable {K : Type} [Field K] [LinearOrder K] [IsStrictOrderedRing K] [Inhabited K]
+variable {n p m : Nat}
+
+/-- `solve()` after an update or an earlier solve, dense back end (Cholesky with an exact square root) -/
+theorem solve_never_numerics_dense (cs : Consts K) (sqrtF : K → K) (hsq : ExactSqrt sqrtF) (s : Solver K n p m)
+    (perm : Vector (Fin (n + p + m)) (n + p + m))
+    (hd : s.be = .dense) (hv : s.st.verify = true) (hτ1 : s.st.tau < 1)
+    (hft : 0 < s.st.regFinetuneLowerLimit) (heps : 0 ≤ cs.machEps) (h15 : 1 ≤ cs.c1_5) (h05 : 0 < cs.c0_5)
+    (hP : ∀ x : Vec K n, 0 ≤ quad s.data.Psym x) (hc : C13.CachesOk s.be s.data s.kkt) (hki : s.kktInitState = false)
+    (hnl : s.data.lb.cnt ≤ n) (hnu : s.data.ub.cnt ≤ n)
+    (hguard : ∀ (w0 : Work K n p m) (kkt1 : KKT K n p m) (b : Bool), m + s.data.lb.cnt + s.data.ub.cnt ≠ 0 →
+      0 < (mehrotraShift cs s.data (ipBeforeShift cs s (Solver.env cs sqrtF s perm) w0 kkt1 b)).2.2) :
+    (solveTyped cs sqrtF s perm).2 ≠ Status.numerics := by
+  obtain ⟨hρ0, hδ0, hrl, hτ0⟩ := verify_facts s.st hv
+  have hbe : (Solver.env cs sqrtF s perm).be = .dense := hd
+  have hin : (Solver.env cs sqrtF s perm).inner = innerLLT sqrtF := by
+    simp only [Solver.env, execInner, hd, Backend.isDense, if_true]
+  have hP' : ∀ x : Vec K n, 0 ≤ quad (Solver.env cs sqrtF s perm).data.Psym x := hP
+  have hstart : ConvInv (Solver.env cs sqrtF s perm) ((solveStart cs sqrtF s perm).1, s.kkt) (solveStart cs sqrtF s perm).2.2 := by
+    refine ⟨?_, hc, hρ0, hδ0, hrl⟩
+    simp only [solveStart, Solver.env]
+    refine ⟨fun i => ?_, fun i => ?_, fun i hi => ?_, fun i hi => ?_, fun i hi => ?_, fun i hi => ?_⟩
+    · simp [Vec.const]
+    · simp [Vec.const]
+    · rw [C08.headUpd_get']; simp [hi]
+    · rw [C08.headUpd_get']; simp [hi]
+    · rw [C08.headUpd_get']; simp [hi]
+    · rw [C08.headUpd_get']; simp [hi]
+  have hk0 : (solveStart cs sqrtF s perm).2.1 =
+      ((realOps (Solver.env cs sqrtF s perm)).rescale ((solveStart cs sqrtF s perm).1, s.kkt) (solveStart cs sqrtF s perm).2.2).2 := by
+    simp only [solveStart, hki, Bool.not_false, if_true, realOps]
+  have hpair : ((solveStart cs sqrtF s perm).1, (solveStart cs sqrtF s perm).2.1) =
+      (realOps (Solver.env cs sqrtF s perm)).rescale ((solveStart cs sqrtF s perm).1, s.kkt) (solveStart cs sqrtF s perm).2.2 :=
+    Prod.ext rfl hk0
+  have hfac := dense_factor_after_rescale (Solver.env cs sqrtF s perm) sqrtF hsq hbe hin hP'
+  have hfa := hfac s.refineOn _ _ hstart
+  have hinvfa := ((realOps_convInv (Solver.env cs sqrtF s perm) hfac hτ0 hτ1 heps hft).rescale s.refineOn _ _ hstart).2
+  rw [← hpair] at hfa hinvfa
+  unfold solveTyped
+  simp only [hv, Bool.not_true, Bool.false_eq_true, if_false]
+  rw [initLoopG.eq_def]
+  simp only [hfa, if_true, Bool.not_true, Bool.false_eq_true, if_false]
+  apply convex_never_numerics_dense (Solver.env cs sqrtF s perm) sqrtF hsq hbe hin hP' hτ0 hτ1 heps hft
+  obtain ⟨_, hck, hr, hdd, hl⟩ := hinvfa
+  refine ⟨?_, ?_, ?_, ?_, ?_⟩
+  · exact C08.initialPoint_in_cone cs s (Solver.env cs sqrtF s perm) (solveStart cs sqrtF s perm).1
+      ((realOps (Solver.env cs sqrtF s perm)).factor s.refineOn ((solveStart cs sqrtF s perm).1, (solveStart cs sqrtF s perm).2.1)).1.2
+      (solveStart cs sqrtF s perm).2.2 s.refineOn hnl hnu h15 h05 (hguard _ _ _)
+  · rw [C04.initialPoint_kkt]; exact hck
+  · unfold initialPoint; simp only; split <;> exact hr
+  · unfold initialPoint; simp only; split <;> exact hdd
+  · unfold initialPoint; simp only; split <;> exact hl
+end dense
+end Piqp.C02
